@@ -16,6 +16,7 @@
   (`C10_value_fixed_at_build`), and source data is never written (`C10_sources_never_written`).
 -/
 import CubedModel.Proofs.History
+import CubedModel.Model.GeneratedC10
 
 namespace Cubed.C10
 
@@ -82,6 +83,24 @@ theorem C10_sources_never_written (soft : List OpObj → List XOp → Nat → Bo
       | cons st rest ih => intro s hs; exact ih _ (basic_step soft s hs st).1
     exact this pre {} basic_init
   exact sources_intact_run soft post _ hb k v h
+
+/-- (h) The code shapes that Model/History.lean transcribes are the ones found in the tree under test
+(facts regenerated from the source by harness/extract_c10.py on every run): `_store_array` re-targets a lazy
+source in place (array object, its own dag node, the shared op's target / write proxy, not fusable with
+successors, returns the same object), plans are merged with `nx.compose_all`, finalization and fusion work on
+copies, a fused op is a fresh `PrimitiveOperation` that is fusable again, `reads_map`s are merged by name,
+read proxies are captured at build time, `from_zarr` opens read-only, create-arrays uses mode "a". -/
+theorem C10_model_matches_source :
+    GeneratedC10.storeRetargetsArrayObject = true ∧ GeneratedC10.storeRetargetsOwnDagNode = true ∧
+    GeneratedC10.storeRetargetsSharedOp = true ∧ GeneratedC10.storeMarksUnfusable = true ∧
+    GeneratedC10.storeReturnsSameObject = true ∧ GeneratedC10.storeIdentityUnfusable = true ∧
+    GeneratedC10.fromZarrMode = "r" ∧ GeneratedC10.dagsMergedByComposeAll = true ∧
+    GeneratedC10.finalizeCopiesDag = true ∧ GeneratedC10.createArraysMode = "a" ∧
+    GeneratedC10.newPlanComposesSources = true ∧ GeneratedC10.fuseCopiesDag = true ∧
+    GeneratedC10.canFuseNeedsFlagAndSingleConsumer = true ∧ GeneratedC10.noFuseWhenPredecessorRequested = true ∧
+    GeneratedC10.fusedOpFusableAgain = true ∧ GeneratedC10.fusedReadsMergedByName = true ∧
+    GeneratedC10.readProxyCapturedAtBuild = true ∧ GeneratedC10.readBackUsesCurrentZarray = true := by
+  decide
 
 /-! ### the witness: x = a+1; y = x*2; to_zarr(x, p); y.compute() -/
 
